@@ -19,7 +19,7 @@ type TraceStep struct {
 	Label   string
 	Msgs    []sdk.Msg
 	OK      bool
-	Custom  bool // executed by a custom handler or without tx bytes: not expressible as a signed transaction
+	Custom  bool   // executed by a custom handler or without tx bytes: not expressible as a signed transaction
 	Bytes   []byte // the signed transaction the seam itself executed under (tracer in signing mode)
 	Dt      time.Duration
 	Height  int64                // block steps: the height whose end-block ran
